@@ -234,6 +234,9 @@ def r4(ctx):
             else:
                 good = False
             te = vf.expr(fn, c.args[5])
+            if te[0] == "phi" or vf.expr(fn, c.args[4])[0] == "phi":
+                raise AnalysisBroken("%s: a report site is fed by a choice of texts (several sites merged into one call): the per-site rules on text and "
+                                     "lengths are written for one text per site" % fn.name)
             tmax = None
             if te[0] == "c":
                 tmax = te[1]
@@ -248,7 +251,7 @@ def r4(ctx):
                       "encapsulated length %s (%s), text length %s => report <= %s bytes" % (
                           vf.show(le), kind or "NOT a PDU length", vf.show(te), (16 + encmax + tmax) if (encmax is not None and tmax not in (None, -1)) else "n/a"),
                       key="C14.R4:%s:%s" % (fn.name, _ord(fn, c)))
-    ctx.floor("C14.R4", n, 19)
+    ctx.floor("C14.R4", n, 10)   # sites may be merged (one call fed by a switch); far fewer means the idiom is no longer recognised
 
 
 def _ord(fn, inst):
@@ -309,7 +312,7 @@ def r5(ctx, retsets):
         ctx.violation("C14.R5", "rtr_receive_pdu:%s" % inst.callee, inst.loc(), msg, key="C14.R5:rtr_receive_pdu:%s" % msg.split()[3])
     if not bad:
         ctx.ok("C14.R5", "rtr_receive_pdu:typestate", "%s:%d" % (fn.relfile, fn.line), "%d report sites, header in network order at each of them" % len(nsites))
-    ctx.floor("C14.R5", len(nsites), 5)
+    ctx.floor("C14.R5", len(nsites), 1)
     # the receive function changes the received bytes only by byte-order conversion: what is echoed later is what arrived
     writes = []
     for i in fn.all_insts():
@@ -351,6 +354,10 @@ def r6(ctx, retsets):
              "nothing is sent in reply to an Error Report")
     fn = pdb.fn("rtr_send_error_pdu_from_host")
     ctx.touch(fn)
+    fw = fn.calls("rtr_send_error_pdu")
+    if not fw or any(len(c.args) != 6 for c in fw):
+        raise AnalysisBroken("the Error Report helpers were rearranged: rtr_send_error_pdu_from_host no longer hands (socket, copy, length, code, text, "
+                             "text length) to rtr_send_error_pdu - the rules on what is converted and forwarded are written for that interface")
     for ln in (0, HDR, 12, 20, 24, 32, 123):
         def classify(inst, E, st):
             if inst.op == "call" and inst.callee == "rtr_send_error_pdu":
